@@ -38,6 +38,14 @@ claimed["C01"] = dict(
     technique="deterministic simulation: controlled map-iteration order + simulated jumping clock + stored-data fault survivors, byte-equality and fixed-point oracles over write/read generations",
 )
 
+claimed["C20"] = dict(
+    level="exploration",
+    text="Seeded search over fonts, name patterns and GSUB rules with competing sources for the clause 'asking again returns the same names': MakeGlyphNames under five controlled map-iteration orders (incl. plain repetition), unchanged font digest, install/read-back/ask-again history on a copy, MakeSimple on CID-keyed fonts under three orders. The set invariants of the statement (one non-empty distinct name per glyph, .notdef first, existing unique names kept, PostScript-safe font name) are evaluated on the same runs as incidental oracles.",
+    design="3 C20",
+    note="Trusted: the map-order seam. Not decided: the order in which inference sources are consulted (cmap before GSUB before ornNNN) - a pure function of the input.",
+    technique="deterministic simulation: controlled map-iteration order and call histories (query / install / query), equality of answers across orders and histories",
+)
+
 pending = {k: PENDING_REASON for k in ["C01", "C02", "C03", "C07", "C15", "C16", "C18", "C19", "C20"] if k not in claimed}
 
 not_applicable = {
